@@ -71,7 +71,9 @@ func c15Jobs() []c15Job {
   "e_function":{"custom_func":{"name":"javascript","args":[{"const":"function dbl(x) { return x * 2 }; dbl(n)"},{"const":"n"},{"xpath":"n","type":"int"}]}},
   "f_undeclared":{"custom_func":{"name":"javascript","args":[{"const":"if (typeof seen === 'undefined') { seen = 0 }; seen += 1; seen"}]}},
   "g_helper":{"custom_func":{"name":"javascript","args":[{"const":"helper = function(x) { return 'h' + x }; helper(n)"},{"const":"n"},{"xpath":"n","type":"int"}]}},
-  "h_probe":{"custom_func":{"name":"javascript","args":[{"const":"[typeof k, typeof t, typeof K, typeof cnt, typeof dbl, typeof seen, typeof helper].join('|')"}]}}}}}}`,
+  "h_probe":{"custom_func":{"name":"javascript","args":[{"const":"[typeof k, typeof t, typeof K, typeof cnt, typeof dbl, typeof seen, typeof helper, typeof late].join('|')"}]}},
+  "a0_getter":{"custom_func":{"name":"javascript","args":[{"const":"(function(){ var vv = n; return { get x() { late = vv; return vv * 5 } } })()"},{"const":"n"},{"xpath":"n","type":"int"}]}},
+  "a1_late":{"custom_func":{"name":"javascript","args":[{"const":"typeof late"}]}}}}}}`,
 			Input: `[{"n":1},{"n":2},{"n":3}]`},
 		// a script that enumerates its object argument (JSON.stringify, Object.keys, for-in)
 		c15Job{Name: "js-object-argument-enumerated", Schema: `{` + h("json") + `,"transform_declarations":{"FINAL_OUTPUT":{"xpath":"/*","object":{
